@@ -893,16 +893,6 @@ Definition spelling_val (ps : list part) : option N :=
   | _ => None
   end.
 
-(* the 3^8 eight-word lists over {0, 1, ffff}: every zero/non-zero pattern, i.e.
-   every position and length of "::", and both values that matter for the
-   dotted tail *)
-Definition v6_sample_words : list N := [0; 1; 65535].
-Fixpoint word_lists (n : nat) : list (list N) :=
-  match n with
-  | O => [[]]
-  | S k => flat_map (fun l => map (fun w => w :: l) v6_sample_words) (word_lists k)
-  end.
-
 (* table lookup used by the driver *)
 Fixpoint tbl_lookup (tbl : list (bytes * list (N * bytes))) (h : bytes) : list (N * bytes) :=
   match tbl with
